@@ -231,6 +231,22 @@ def _law_sweep_body(ctx, atm, out):
                 out.append((f"rank-differs:{fname}", f"{label} on arguments of shape {shp} gives {np.asarray(got).tolist()}, the scalar "
                             f"calls on the same numbers give {want.tolist()}", {"law": "rank", "fn": label, "shape": list(shp)}))
 
+    # whole-Kelvin temperatures handed over as an INTEGER array (np.arange(200, 320, 10)): the numbers of the float calls
+    Ti = np.array([200, 230, 250, 251, 260, 273, 274, 290, 310], dtype=np.int64)
+    for fname in ("e_eq_water_mk", "e_eq_ice_mk", "e_eq_mixed_mk"):
+        for arr in (Ti, Ti.astype(np.int32), Ti.reshape(3, 3)):
+            try:
+                got = np.asarray(getattr(atm, fname)(arr), dtype=float)
+                want = np.asarray(getattr(atm, fname)(arr.astype(np.float64)), dtype=float)
+            except Exception as e:  # noqa
+                out.append((f"integer-temperatures-raise:{fname}", f"{fname} raised {type(e).__name__}: {e} for whole-Kelvin temperatures "
+                            f"given as {arr.dtype} array of shape {arr.shape}", {"law": "integer-dtype", "fn": fname}))
+                continue
+            if got.shape != want.shape or not np.all(np.abs(got - want) <= 1e-13 * np.abs(want)):
+                out.append((f"integer-temperatures:{fname}", f"{fname} on the {arr.dtype} array {arr.ravel()[:4].tolist()}... gives "
+                            f"{got.ravel()[:4].tolist()}..., on the same temperatures as floats {want.ravel()[:4].tolist()}...",
+                            {"law": "integer-dtype", "fn": fname}))
+
     def rel(a, b):
         return np.abs(a - b) / np.maximum(np.maximum(np.abs(a), np.abs(b)), 1e-300)
 
